@@ -161,6 +161,62 @@ def handle (sess : Sess) (rep : Report) (ln : Nat) (toks : List String) (obs : S
       if obs == "ok" then ({ model := some (init ci), mon := MonState.start cfg, active := true }, rep)
       else ({}, { rep.msg s!"DIVERGE line={ln} model=ok impl={obs}" with diverged := rep.diverged + 1 })
     | none => ({}, rep.msg s!"BAD line={ln}")
+  | "rrburst" :: rest =>
+    -- k round-robin BIND picks issued concurrently (all channels READY), each completed with an error
+    -- at once: the model explains the outcome by k sequential (pick; completion) pairs — the per-slot
+    -- counts and the final state do not depend on the order (C09: the cursor advances atomically)
+    if !sess.active then (sess, rep.bump "pool.skipped_after_divergence") else
+    let a := args rest
+    match (arg a "first").toNat?, (arg a "n").toNat?, (arg a "picker").toNat? with
+    | some first, some k, some pn =>
+      let rep := rep.bump "pool.concurrent_rr_burst"
+      let emptyMsg : Msg := { key := "", keys := [] }
+      match sess.model with
+      | none =>
+        let (mon, _, _) := sess.mon.observe .reserr [] (parseDigest obs)
+        ({ sess with mon := mon }, rep)
+      | some s0 =>
+        let n := s0.refs.length
+        -- sequential explanation
+        let rrOn : Bool := match s0.cfg with | some c => c.rr && c.methods | none => false
+        let go := if !rrOn || !s0.waiters.isEmpty then none else
+          (List.range k).foldl (fun (acc : Option (St × List Nat × MonState × List (String × String))) i =>
+          match acc with
+          | none => none
+          | some (s, counts, mon, fails) =>
+            let opP : Op := .pick (first + i) pn "bind" .gcp none (.msg emptyMsg)
+            let (s1, e1) := step s opP
+            match e1 with
+            | [.placed sc] =>
+              match slotOfSc s.refs sc with
+              | some slot =>
+                let (mon, f1, _) := mon.observe opP (e1.map evStr) (parseDigest (digest s1))
+                let opD : Op := .done (first + i) .other emptyMsg
+                let (s2, e2) := step s1 opD
+                let (mon, f2, _) := mon.observe opD (e2.map evStr) (parseDigest (digest s2))
+                some (s2, counts.modify slot (· + 1), mon, fails ++ f1 ++ f2)
+              | none => none
+            | _ => none) (some (s0, List.replicate n 0, sess.mon, []))
+        match go with
+        | some (s', counts, mon, fails) =>
+          let mine := " ; ".intercalate [s!"burst={".".intercalate (counts.map toString)}", "ok", digest s']
+          let rep := fails.foldl (fun rep (p, c) =>
+            { rep.msg s!"MONITOR property={p} clause={c} line={ln}" with monitorFails := rep.monitorFails + 1 }) rep
+          if mine == obs then ({ sess with model := some s', mon := mon }, rep)
+          else
+            -- the picks did not cycle evenly (or something else differs)
+            let implCounts := (obs.splitOn " ; ").head?.getD ""
+            let rep := if implCounts != s!"burst={".".intercalate (counts.map toString)}" then
+                { rep.msg s!"MONITOR property=C09 clause=rr_fair line={ln}" with monitorFails := rep.monitorFails + 1 }
+              else rep
+            let (mon, _, _) := sess.mon.observe .reserr [] (parseDigest obs)
+            ({ sess with model := none, mon := mon },
+             { rep.msg s!"DIVERGE line={ln} model={mine} impl={obs}" with diverged := rep.diverged + 1 })
+        | none =>
+          -- the model says the burst does not apply here
+          if obs == "bad-op" then (sess, rep)
+          else ({ sess with model := none }, { rep.msg s!"DIVERGE line={ln} model=bad-op impl={obs}" with diverged := rep.diverged + 1 })
+    | _, _, _ => (sess, rep.msg s!"BAD line={ln}")
   | "pick2" :: rest =>
     -- two plain picks on one picker, run concurrently by the harness while it stalls the balancer
     -- lock: the model must explain the outcome by *some* order of two atomic picks (C02)
